@@ -38,6 +38,8 @@ pub struct ECall {
     pub had_unmappables: Option<bool>,
     /// max_buffer_length_from_<src>_without_replacement(n) / …_if_no_unmappables(n), before the call
     pub q: Option<(Option<usize>, Option<usize>)>,
+    /// the same two queries for a unit count near the overflow thresholds
+    pub qx: Option<(usize, Option<usize>, Option<usize>)>,
     pub guard_broken: bool,
 }
 
@@ -81,8 +83,17 @@ pub fn one_call(e: &mut Encoder, p: &EPlan, src8: &str, src16: &[u16], cap: usiz
         has_pending: false,
         had_unmappables: None,
         q: None,
+        qx: None,
         guard_broken: false,
     };
+    {
+        let n = crate::util::big_n(rec.n * 7 + cap % 36 + (last as usize));
+        rec.qx = Some(if p.utf16 {
+            (n, e.max_buffer_length_from_utf16_without_replacement(n), e.max_buffer_length_from_utf16_if_no_unmappables(n))
+        } else {
+            (n, e.max_buffer_length_from_utf8_without_replacement(n), e.max_buffer_length_from_utf8_if_no_unmappables(n))
+        });
+    }
     rec.q = Some(if p.utf16 {
         (e.max_buffer_length_from_utf16_without_replacement(src16.len()), e.max_buffer_length_from_utf16_if_no_unmappables(src16.len()))
     } else {
@@ -245,6 +256,10 @@ pub fn show_calls(calls: &[ECall]) -> String {
             if let Some((a, b)) = c.q {
                 let f = |x: Option<usize>| x.map(|v| v.to_string()).unwrap_or_else(|| "-".into());
                 s.push_str(&format!(",q={}/{}", f(a), f(b)));
+            }
+            if let Some((n, a, b)) = c.qx {
+                let f = |x: Option<usize>| x.map(|v| v.to_string()).unwrap_or_else(|| "-".into());
+                s.push_str(&format!(",qx={}:{}/{}", n, f(a), f(b)));
             }
             s
         })
